@@ -118,6 +118,7 @@ class Recorder:
         self.stats = {}
         self.extra = {}
         self.exhaustive = None
+        self._last = {}
 
     def record(self, test, case, res):
         self.evaluations += 1
@@ -141,10 +142,14 @@ class Recorder:
             self.viol_count[bucket] += 1
             lst = self.violations.setdefault(bucket, [])
             if len(lst) < self.MAX_VIOL_PER_BUCKET:
+                # the previous case of the same test is kept: if the code under test leaks state between calls the
+                # violation only reproduces as the two-step history (previous case, this case)
                 lst.append({"test": test, "clause": clause, "detail": detail,
-                            "tags": enc(tags), "case": enc(case)})
+                            "tags": enc(tags), "case": enc(case), "prev": self._last.get(test)})
+        self._last[test] = enc(case)
 
     def dump(self, path):
+        self._last = {}
         with open(path, "wb") as f:
             pickle.dump(self.__dict__, f)
 
